@@ -124,7 +124,8 @@ Definition mode_agrees (strict : bool) (e : sentry) (m : Z) : bool :=
 Definition entry_agrees (strict : bool) (name : seg) (e : sentry) (n : str) (m s : Z) : bool :=
   str_eqb n name && mode_agrees strict e m && Z.eqb s (se_size e).
 
-(* no symlink strictly above p (direct lookups do not follow intermediate links; not claimed here) *)
+(* no symlink strictly above p.  No longer used by the oracle: a path below a link is simply absent from the
+   overlay map, and direct lookups are claimed to answer exactly that (round-4 seed symlink-over-dir-keeps-children). *)
 Definition no_link_above (m : fsmap) (p : list seg) : bool :=
   forallb (fun q => match s_lookup m q with
                     | Some e => match se_kind e with SKSym => false | _ => true end
@@ -155,7 +156,6 @@ Section View.
     match spec_probe p with
     | None => true
     | Some q =>
-        if negb (no_link_above full q) then true else
         if restricted && match s_lookup m q, s_lookup full q with
                          | None, Some e => negb (is_dir_entry (Some e))
                          | _, _ => false
@@ -170,7 +170,6 @@ Section View.
             then true
             else match o with SNotExist => true | _ => false end
         | SREntry r e =>
-            if negb (no_link_above full r) then true else
             if is_dir_entry (Some e) && dir_may_vanish r then true else
             match o with
             | SOk n md s => entry_agrees strict (last r []) e n md s
@@ -183,10 +182,8 @@ Section View.
     match spec_probe p with
     | None => true
     | Some q =>
-        if negb (no_link_above full q) then true else
         match s_resolve m (max_hops cfg) q with
         | SREntry r e =>
-            if negb (no_link_above full r) then true else
             match se_kind e with
             | SKReg => match o with ROk c => str_eqb c (se_content e) | RErr => lenient_read | _ => false end
             | _ => match o with RSkip => true | _ => false end
@@ -219,7 +216,6 @@ Section View.
     match spec_probe p with
     | None => true
     | Some q =>
-        if negb (no_link_above full q) then true else
         let listing (r : list seg) :=
           let want := isort seg_cmp (s_children m r) in
           match o with
@@ -236,7 +232,6 @@ Section View.
             then true
             else match o with DNotExist | DOk [] => true | _ => false end   (* absent: lists nothing (see note L1 in checks/C04.py) *)
         | SREntry r e =>
-            if negb (no_link_above full r) then true else
             match se_kind e with
             | SKDir => listing r
             | _ => match o with DOk (_ :: _) => false | _ => true end   (* a file lists nothing *)
